@@ -1,55 +1,39 @@
 (** C06 -- the job table tracks exactly the live jobs under every order of child events.
-    Statements only; proofs are in Proofs/JobsProofs.v, the decidable
-    specification (valid / good / known) in Proofs/JobsSpec.v. *)
-From Cicada Require Import Model.Jobs Proofs.JobsSpec Proofs.JobsProofs.
-From Coq Require Import ZArith List Sorting.Sorted.
+    Statements only; proofs are in Proofs/JobsProofs.v and Proofs/JobsInv.v, the
+    decidable specification (valid / good) in Proofs/JobsSpec.v. The model
+    (Model/Jobs.v) follows /repo after the repairs bbf8fc1, 2503a9b, ac01883,
+    ac20f13, 1687e77. *)
+From Cicada Require Import Model.Jobs Proofs.JobsSpec Proofs.JobsProofs Proofs.JobsInv.
+From Coq Require Import ZArith List Bool.
 Import ListNotations.
 Local Open Scope Z_scope.
 
-(** Full statement: after every valid history (per process (stop cont)* then
-    exit|kill, any interleaving, any delivery point, non-monotone pids) the
-    state after the last operation is good: after a poll the table lists
-    exactly the jobs with a live process, Stopped iff all live members are
-    stopped; a foreground wait returns exactly when no member runs, with the
-    last member's status. *)
-Definition C06_full : Prop := forall h, valid h = true -> good h = true.
+(** Full statement: after every valid history -- launches of foreground and
+    background jobs of any size with fresh pids in any order, per process
+    (stop cont)* then exit|kill, any interleaving, every delivery point
+    (foreground wait of another job, or the prompt-time poll) -- the state
+    after the last operation is good: after a poll that leaves nothing pending
+    the table lists exactly the jobs with a live process, each process Running /
+    Stopped as it is, a job Stopped iff all its live members are stopped; a
+    foreground wait returns exactly when no member runs, with the last member's
+    status. Every prefix of a valid history is valid, so this is a statement
+    about the state after every operation. *)
+Definition C06_full_statement : Prop := forall h, valid h = true -> good h = true.
 
-(** It is false of the faithful model, for five separate mechanisms. *)
-Theorem C06_refuted : ~ C06_full.
-Proof. intros H. specialize (H w_unsorted eq_refl). vm_compute in H. discriminate. Qed.
+Theorem C06_full : C06_full_statement.
+Proof. intros h V. apply (valid_good h V). Qed.
 
-Theorem C06_refuted_unsorted :
-  valid w_unsorted = true /\ good w_unsorted = false /\ known_unsorted w_unsorted = true /\
-  (* the exit of pid 9 is never recorded: the job is still listed after the poll *)
-  map jpids (tab (r_sh (run w_unsorted))) = [[9]].
-Proof. vm_compute. repeat split. Qed.
+(** The invariant behind it, after every operation of every valid history:
+    well-formed table (unique ordered ids, distinct groups, no pid twice, no
+    empty job, job Stopped iff every member is in its stopped set), a parked stop
+    and a parked continue never coexist, and the true state of every launched
+    process is what the table says once the parked statuses are applied. *)
+Theorem C06_invariant : forall h, valid h = true ->
+  exists C, all_events h = C ++ r_pend (run h) /\ INV (r_sh (run h)) C (launched h).
+Proof. intros h V. destruct (valid_good h V) as ((C & G1 & G2 & _) & _). exists C. auto. Qed.
 
-Theorem C06_refuted_count_waited :
-  valid w_count_waited = true /\ good w_count_waited = false /\ known_member_stop w_count_waited = true /\
-  (* the wait returned (not blocked) with the exit of pid 9 still pending *)
-  r_blocked (run w_count_waited) = false /\ r_pend (run w_count_waited) = [Exited 9 5].
-Proof. vm_compute. repeat split. Qed.
-
-Theorem C06_refuted_stop_cont_parked :
-  valid w_stop_cont_parked = true /\ good w_stop_cont_parked = false /\
-  known_stop_cont_parked w_stop_cont_parked = true /\
-  map jst (tab (r_sh (run w_stop_cont_parked))) = [Stopped] /\ m_cont (mp (r_sh (run w_stop_cont_parked))) = [5].
-Proof. vm_compute. repeat split. Qed.
-
-Theorem C06_refuted_exit_among_stopped :
-  valid w_exit_among_stopped = true /\ good w_exit_among_stopped = false /\
-  known_member_stop w_exit_among_stopped = true /\
-  map (fun j => (jpids j, jstopped j, jst j)) (tab (r_sh (run w_exit_among_stopped))) = [([5], [5], Running)].
-Proof. vm_compute. repeat split. Qed.
-
-Theorem C06_refuted_partial_continue :
-  valid w_partial_continue = true /\ good w_partial_continue = false /\
-  known_member_stop w_partial_continue = true /\
-  map (fun j => (jpids j, jstopped j, jst j)) (tab (r_sh (run w_partial_continue))) = [([5; 6], [6], Stopped)].
-Proof. vm_compute. repeat split. Qed.
-
-(** Clause "unique ids, a new job takes the smallest unused one": full
-    strength, every history (valid or not, any statuses, any pids). *)
+(** Clause "unique ids, a new job takes the smallest unused one": every
+    history (valid or not, any statuses, any pids). *)
 Theorem C06_ids : forall h,
   NoDup (map jid (tab (r_sh (run h)))) /\
   forall gid pid bg, (forall j, In j (tab (r_sh (run h))) -> jgid j <> gid) ->
@@ -58,64 +42,32 @@ Theorem C06_ids : forall h,
       forall j, In j (tab (r_sh (run h))) -> In j (insert_job (tab (r_sh (run h))) gid pid bg).
 Proof. exact ids_unique_and_least. Qed.
 
-(** The transcribed core::slice::binary_search_by finds every member of an
-    ascending vector at its index, and only members; on [9;3] it misses 9. *)
-Theorem C06_binary_search :
-  (forall l x, StronglySorted Z.lt l ->
-     (In x l -> exists i, binary_search l x = inl i /\ (i < length l)%nat /\ nth i l 0 = x) /\
-     (forall i, binary_search l x = inl i -> (i < length l)%nat /\ nth i l 0 = x)) /\
-  (binary_search [9; 3] 9 = inr 2%nat /\ In 9 [9; 3]).
-Proof.
-  split; [intros l x H; apply binary_search_asc, ssorted_asc, H | exact binary_search_unsorted].
-Qed.
+(** Recording an exit / kill removes exactly the first occurrence of the pid
+    from the first job of its group, for every table and every pid vector. *)
+Theorem C06_remove_pid : forall t gid pid, remove_pid_from_job t gid pid = remove_spec t gid pid.
+Proof. exact remove_pid_exact. Qed.
 
-(** Partial statement (what is proved outside the failing class "unsorted"),
-    for every table, not only reachable ones:
-    - with ascending pid vectors, recording an exit / kill removes exactly that
-      pid from the first job of its group and drops the job when it was the
-      last one (the behaviour of the proposed [position] repair);
-    - a foreground wait parks every status of a non-member, in order, applies
-      none of them to the table and keeps blocking.
-    The history-level partial statement
-      forall h, valid h = true -> known h = false -> good h = true
-    is NOT proved; it is checked on the implementation by the oracle of
-    drive/c06.py over the enumerated and random histories. *)
-Definition Known_C06_table (t : table) : bool := known_table t.
+(** Regression: the witnesses of the five defects repaired in /repo are valid
+    histories and are good now (at every prefix). *)
+Example C06_regressions :
+  forallb (fun w => andb (valid w) (forallb (fun k => good (firstn k w)) (seq 0 (S (length w)))))
+    [w_count_waited; w_stop_cont_parked; w_exit_among_stopped; w_partial_continue;
+     [Launch 9 [9; 3] false; Wait 9 [9; 3] [Exited 9 0; Exited 3 0]; Poll []]] = true.
+Proof. vm_compute. reflexivity. Qed.
 
-Theorem C06_partial :
-  (forall t gid pid, Known_C06_table t = false -> remove_pid_from_job t gid pid = remove_spec t gid pid) /\
-  (forall q s gid pids lastp n c st,
-     (forall j, In j (tab s) -> jgid j <> 0) -> (c < n)%nat ->
-     (forall e, In e q -> memZ (ev_pid e) pids = false) ->
-     wait_loop q s gid pids lastp n c st = mkwres (mksh (tab s) (handle_sigchld (mp s) q)) st true []).
-Proof. split; [exact remove_pid_exact_b | exact wait_parks_others]. Qed.
-
-(** Non-vacuity: a valid history outside every known class -- non-monotone
-    pids, background and foreground jobs, a background exit reaped by the
-    foreground wait, a stop and a continue of a single-process job -- is good,
-    its tables have ascending pid vectors, and removal there is not the identity. *)
+(** Non-vacuity: histories meeting the hypothesis, with pid vectors not
+    ascending, background exits reaped by a foreground wait, kills, stop and
+    continue of members of multi-process jobs and of single-process jobs. *)
 Example C06_nonvacuous :
-  valid w_good = true /\ known w_good = false /\ good w_good = true /\
-  forallb (fun k => good (firstn k w_good)) (seq 0 8) = true /\
-  Known_C06_table (tab (r_sh (run (firstn 3 w_good)))) = false /\
-  map jpids (remove_pid_from_job (tab (r_sh (run (firstn 3 w_good)))) 10 20) = [[40; 50]; [7]; [10; 30]].
+  valid w_good = true /\ valid w_exit_only = true /\
+  map (fun j => (jpids j, jst j)) (tab (r_sh (run (firstn 5 w_exit_only)))) = [([6], Running)] /\
+  map (fun j => (jpids j, jstopped j, jst j)) (tab (r_sh (run w_partial_continue))) = [([5; 6], [6], Running)] /\
+  map (fun j => (jpids j, jstopped j, jst j)) (tab (r_sh (run w_exit_among_stopped))) = [([5], [5], Stopped)].
 Proof. vm_compute. repeat split. Qed.
 
-Check C06_full : Prop.
-Check C06_refuted : ~ C06_full.
-Check C06_ids : forall h,
-  NoDup (map jid (tab (r_sh (run h)))) /\
-  forall gid pid bg, (forall j, In j (tab (r_sh (run h))) -> jgid j <> gid) ->
-    exists k, least_unused k (tab (r_sh (run h))) /\
-      In (new_job k gid pid bg) (insert_job (tab (r_sh (run h))) gid pid bg) /\
-      forall j, In j (tab (r_sh (run h))) -> In j (insert_job (tab (r_sh (run h))) gid pid bg).
+Check C06_full : forall h, valid h = true -> good h = true.
 
-Print Assumptions C06_refuted.
-Print Assumptions C06_refuted_unsorted.
-Print Assumptions C06_refuted_count_waited.
-Print Assumptions C06_refuted_stop_cont_parked.
-Print Assumptions C06_refuted_exit_among_stopped.
-Print Assumptions C06_refuted_partial_continue.
+Print Assumptions C06_full.
+Print Assumptions C06_invariant.
 Print Assumptions C06_ids.
-Print Assumptions C06_binary_search.
-Print Assumptions C06_partial.
+Print Assumptions C06_remove_pid.
